@@ -3,6 +3,7 @@ package lungo
 import (
 	"context"
 	"errors"
+	"time"
 
 	"go.mongodb.org/mongo-driver/bson"
 	"go.mongodb.org/mongo-driver/mongo"
@@ -154,7 +155,17 @@ func H_C05_engine() {
 	before := engine.Catalog()
 	st.fail = true
 	var err error
-	switch vf.Choice("call", 3) {
+	switch vf.Choice("call", 4) {
+	case 3:
+		// a session transaction whose commit cannot be persisted
+		sess, _ := client.StartSession()
+		s := sess.(*Session)
+		st.fail = false
+		vf.Assert(s.StartTransaction() == nil, "StartTransaction failed")
+		_, e := coll.InsertOne(context.WithValue(bg, sessionKey{}, s), bson.D{{Key: "_id", Value: int32(9)}})
+		vf.Assert(e == nil, "insert in transaction failed")
+		st.fail = true
+		err = s.CommitTransaction(bg)
 	case 0:
 		_, err = coll.InsertOne(bg, bson.D{{Key: "_id", Value: int32(1)}})
 	case 1:
@@ -182,4 +193,30 @@ func H_C05_engine() {
 
 func mongoIndex(field string) mongo.IndexModel {
 	return mongo.IndexModel{Keys: bson.D{{Key: field, Value: int32(1)}}}
+}
+
+
+// ---------- C06 (engine side): what is persisted is what is visible ----------
+
+// After every successful commit the store holds exactly the catalog the engine publishes - also when
+// the commit trims the change log (small oplog limits so that retention really removes events).
+func H_C06_commit() {
+	st := &flakyStore{}
+	var engine *Engine
+	vf.Daemon(func() {
+		e, err := CreateEngine(Options{Store: st, MinOplogSize: 1, MaxOplogSize: 1, MinOplogAge: time.Nanosecond, MaxOplogAge: time.Hour})
+		vf.Assume(err == nil)
+		engine = e
+	})
+	client := &Client{engine: engine}
+	coll := client.Database("db").Collection("c")
+	n := 1 + vf.Choice("n", vf.Param("maxwrites", 3))
+	for i := 0; i < n; i++ {
+		_, err := coll.InsertOne(bg, bson.D{{Key: "_id", Value: int32(i)}})
+		vf.Assert(err == nil, "insert failed")
+		vf.Assert(st.data == engine.Catalog(), "the persisted catalog is not the one the engine publishes")
+		vf.Assert(len(stOplog(st.data)) == len(stOplog(engine.Catalog())), "the persisted change log differs from the visible one")
+	}
+	vf.Observe("oplog", int64(len(stOplog(engine.Catalog()))))
+	engine.Close()
 }
